@@ -11,7 +11,9 @@
 (*   history: nord, S, pc (distinct positively weighted abscissae per position), maxfits,       *)
 (*            events: fit [mask (good knots before), st, after (good knots after), finite,      *)
 (*                         illcond (measured: design matrix on the masked knots numerically    *)
-(*                         singular, condition number above 1e5)]                              *)
+(*                         singular, condition number above 1e5), gsb / gsa (global state      *)
+(*                         before / after), argsok (the fit was handed the caller's data:       *)
+(*                         same (x, y, weight) triples, weights clipped at 0, x non-decreasing)] *)
 (*                    return [mask, finite]     refuse []                                       *)
 (*                                                                                              *)
 (* Mode "records" (Trace_BSplineFit.cfg, INIT RInit / NEXT RNext): single observed calls and    *)
@@ -26,6 +28,8 @@
 (*            breakpoints had been dropped ("masked", "masked-poly"); the harness measures the  *)
 (*            discrepancy (units of 1e-9 of the data scale), the support class comes from here  *)
 (*   run    : a history of fit calls on knots that cannot be abstracted (coincident knots)       *)
+(*   proc   : a process history (mixed calls on different objects, nothing restored in between)  *)
+(* every record / fit event carries gsb, gsa: the global state observed before and after the call *)
 EXTENDS BSplineFit, Json, IOUtils, SequencesExt
 Input == JsonDeserialize(IOEnv.VERIF_TRACE)
 VARIABLES i, ok, why, tid, pos
@@ -80,13 +84,45 @@ LawCompared(r) == r.kind = "fitlaw" /\ r.exc = "" /\ r.finite /\ (\A k \in 1..Le
 (* one abscissa): only what the statement demands of every fit is judged - documented status, finite   *)
 (* coefficients, no exception, a mask that shrinks exactly when the status is -1                       *)
 EventOK(e) == IF e.a = "fit" THEN /\ e.st \in Statuses /\ e.finite /\ ToSet(e.after) \subseteq ToSet(e.mask)
+                                  /\ StatePreserved(e.gsb, e.gsa) /\ e.argsok
                                   /\ (e.st = -1) <=> (ToSet(e.after) # ToSet(e.mask))
               ELSE IF e.a = "return" THEN e.finite
               ELSE e.a = "refuse"
 RunWhy(r) == IF \E k \in 1..Len(r.events) : r.events[k].a = "raise" THEN "exception"
              ELSE IF \E k \in 1..Len(r.events) : ~EventOK(r.events[k]) THEN "event not admissible" ELSE ""
 
-WhyOf(r) == IF r.kind = "chol" THEN CholWhy(r) ELSE IF r.kind = "run" THEN RunWhy(r) ELSE LawWhy(r)
+(* a process history: calls of different kinds on different objects, one after the other in the same  *)
+(* process with nothing restored in between (refused factorisations, ill-posed and well-posed fits in  *)
+(* every order).  Every call must preserve the global state and answer as it would on its own:         *)
+(*   chol : okobs against the exact definiteness of the integer matrix (df computed here)              *)
+(*   fit  : status admissible for the support class of (pc, mask) - for a fit with a non-finite weight *)
+(*          -1 / -2 -, finite coefficients, mask shrinking exactly when the status is -1               *)
+ProcEventWhy(e) ==
+  IF e.exc # "" THEN "exception: " \o e.exc
+  ELSE IF ~StatePreserved(e.gsb, e.gsa) THEN "process-wide floating-point error handling changed by the call"
+  ELSE IF e.op = "chol" THEN
+       LET df == IF ~e.finite THEN -1 ELSE Definiteness(TLCEval(Unband(e.ab, e.n, e.bw)), e.n)
+       IN IF (df = 1 /\ ~e.okobs) \/ (df = -1 /\ e.okobs) THEN "factorisation verdict wrong"
+          ELSE IF ~e.okobs /\ ~e.same THEN "second item is not the input" ELSE ""
+  ELSE LET P == [nord |-> e.nord, S |-> e.S, pc |-> e.pc]
+           mk == ToSet(e.mask)
+           adm == IF e.nonfinite THEN NonFiniteWeightStatuses ELSE FitClass(P, mk).allowed
+       IN IF ~SupportOK(P) \/ ~(EndKnots(P) \subseteq mk /\ mk \subseteq AllKnots(P)) THEN "harness: bad support abstraction"
+          ELSE IF e.st \notin adm /\ ~(e.illcond /\ e.st \in {-1, -2}) THEN "status not admissible"
+          ELSE IF ~e.finite THEN "non-finite coefficients"
+          ELSE IF ~(ToSet(e.after) \subseteq mk /\ (mk \ ToSet(e.after)) \subseteq Interior(P)
+                    /\ ((e.st = -1) <=> (ToSet(e.after) # mk))) THEN "mask change not admissible"
+          ELSE ""
+RECURSIVE ProcFrom(_, _)
+ProcFrom(evs, k) == IF k > Len(evs) THEN ""
+                    ELSE LET y == ProcEventWhy(evs[k]) IN IF y # "" THEN y ELSE ProcFrom(evs, k + 1)
+ProcWhy(r) == ProcFrom(r.events, 1)
+
+GlobalWhy(r) == IF r.kind \in {"chol", "fitlaw"} /\ ~StatePreserved(r.gsb, r.gsa)
+                THEN "process-wide floating-point error handling changed by the call" ELSE ""
+WhyOf(r) == IF GlobalWhy(r) # "" THEN GlobalWhy(r)
+            ELSE IF r.kind = "chol" THEN CholWhy(r) ELSE IF r.kind = "run" THEN RunWhy(r)
+            ELSE IF r.kind = "proc" THEN ProcWhy(r) ELSE LawWhy(r)
 RInit == /\ i \in 1..Len(Input)
          /\ why = WhyOf(Input[i])
          /\ ok = (why = "")
@@ -105,6 +141,8 @@ TInit == \E t \in 1..Len(Input) :
 TFit == /\ Ev.a = "fit"
         /\ ToSet(Ev.mask) = bkmask
         /\ Ev.finite
+        /\ StatePreserved(Ev.gsb, Ev.gsa)
+        /\ Ev.argsok
         /\ \/ Ev.st = 0 /\ FitOK /\ ToSet(Ev.after) = bkmask
            \/ Ev.st = -1 /\ FitDrop(ToSet(Ev.after))
            \/ Ev.st = -2 /\ FitFail /\ ToSet(Ev.after) = bkmask
